@@ -116,6 +116,7 @@ ROUNDTRIP = [
     ("tric", [[1, 1, 0], [-1, 1, 0], [0, 0, 2]], None),
     ("tric", [[2, 0, 0], [0, 1, 0], [0, 0, 2]], None),
     ("nacl", [[1, 0, 0], [0, 1, 0], [0, 0, 1]], "F"),
+    ("nacl", [[2, 0, 0], [0, 1, 0], [0, 0, 1]], "F"),
     ("naclg", [[1, 0, 0], [0, 1, 0], [0, 0, 2]], "F"),
     ("bcc", [[2, 0, 0], [0, 2, 0], [0, 0, 2]], "I"),
     ("tetab", [[2, 0, 0], [0, 2, 0], [0, 0, 1]], None),
@@ -146,7 +147,8 @@ def periodic_random_fc(orc, S, ph, rng):
 
 def roundtrip(ctx, events):
     rng = np.random.default_rng(ctx.seed + 11)
-    cases = ROUNDTRIP if not ctx.quick else ROUNDTRIP[::2] + ROUNDTRIP[1:4:2]
+    # quick: every other scenario, always including the interleaved-species + centring cases (s2pp_map[j] != j // N)
+    cases = ROUNDTRIP if not ctx.quick else [c for i, c in enumerate(ROUNDTRIP) if i % 2 == 0 or i in (1, 3) or c[0] in ("nacl", "naclg")]
     worst = 0.0
     for entry, S, P in cases:
         orc = Oracle(entry, [S], seed=ctx.seed, ctx=ctx)
